@@ -428,14 +428,46 @@ class Layout:
         v = fc.vararg
         if v is None:
             return
-        for s in own_nodes(fc.forward.node):
-            if isinstance(s, ast.Assign) and len(s.targets) == 1 and isinstance(s.targets[0], ast.Name) \
-                    and isinstance(s.value, ast.Subscript) and isinstance(s.value.value, ast.Name) and s.value.value.id == v \
-                    and isinstance(s.value.slice, ast.Slice):
-                sl = s.value.slice
-                lo = ast.unparse(sl.lower) if sl.lower is not None else ""
-                hi = ast.unparse(sl.upper) if sl.upper is not None else ""
-                self.segments.append((s.targets[0].id, lo, hi))
+
+        def terms(e) -> Optional[List[str]]:
+            """a sum of names / constants as the list of its terms (None: something else)"""
+            if e is None:
+                return []
+            if isinstance(e, ast.BinOp) and isinstance(e.op, ast.Add):
+                l_, r_ = terms(e.left), terms(e.right)
+                return None if l_ is None or r_ is None else l_ + r_
+            if isinstance(e, (ast.Name, ast.Constant, ast.Attribute)):
+                return [ast.unparse(e)]
+            return None
+        # a slice of a slice is a slice of the argument list: X = V[a:b]; Y = X[c:d]  ==>  Y = V[a+c : a+d] (or : b); the segments are the
+        # innermost pieces, whatever the nesting
+        known: Dict[str, Tuple[Optional[List[str]], Optional[List[str]]]] = {v: ([], None)}      # name -> (lower terms, upper terms | None = open)
+        order: List[str] = []
+        sliced_further: Set[str] = set()
+        raw: Dict[str, Tuple[str, str]] = {}
+        stmts = sorted([s for s in own_nodes(fc.forward.node) if isinstance(s, ast.Assign)], key=lambda s: (s.lineno, s.col_offset))
+        for s in stmts:
+            if len(s.targets) == 1 and isinstance(s.targets[0], ast.Name) and isinstance(s.value, ast.Subscript) and isinstance(s.value.value, ast.Name) \
+                    and s.value.value.id in known and isinstance(s.value.slice, ast.Slice) and s.value.slice.step is None:
+                base, sl = s.value.value.id, s.value.slice
+                blo, bhi = known[base]
+                lo_t, hi_t = terms(sl.lower), (terms(sl.upper) if sl.upper is not None else None)
+                if base != v:
+                    sliced_further.add(base)
+                if blo is None or lo_t is None or (sl.upper is not None and hi_t is None):
+                    known[s.targets[0].id] = (None, None)
+                    raw[s.targets[0].id] = (ast.unparse(sl.lower) if sl.lower is not None else "?", ast.unparse(sl.upper) if sl.upper is not None else "?")
+                else:
+                    known[s.targets[0].id] = (blo + lo_t, (blo + hi_t) if hi_t is not None else bhi)
+                order.append(s.targets[0].id)
+        for nm in order:
+            if nm in sliced_further:
+                continue
+            lo_t, hi_t = known[nm]
+            if lo_t is None:
+                self.segments.append((nm,) + raw.get(nm, ("?", "?")))
+            else:
+                self.segments.append((nm, " + ".join(lo_t), " + ".join(hi_t) if hi_t is not None else ""))
 
     def count_slots(self) -> List[str]:
         """forward parameters that delimit the segments, in segment order"""
